@@ -1,7 +1,7 @@
 """C13 — point containment predicates (structural clauses)."""
 from . import scopes
 from ..core.report import DOMAIN_D
-from ..rules import colliders, frame, degree, affine, unpack, purity, onsegment, misc2, safediv, partition
+from ..rules import colliders, frame, degree, affine, unpack, purity, onsegment, misc2, safediv, partition, generic2
 from .common import e2
 
 MODS = {"distance3d.containment_test", "distance3d.utils"}
@@ -30,3 +30,4 @@ def run(idx, rep, tier):
     colliders.r_coherence(idx, rep, relevant_to="support_function")      # the colliders of the statement include colliders that were moved with update_pose: a stale attribute changes the support mapping the solver sees
     safediv.r_sqrtdomain(idx, rep, modules=["distance3d.containment_test"], floor=0, unknown_ceiling=2, sqrt_calls=("np.sqrt", "math.sqrt"))
     unpack.r_unpack(idx, rep, floor=1)
+    generic2.r_twosided(idx, rep, ["distance3d.containment_test"], floor=1)      # flat shapes reject points on both sides of their plane
